@@ -155,9 +155,10 @@ def rand_spec(rng, opts=None):
     if rng.random() < pc and ntr >= 2:
         a, b = rng.sample(range(ntr), 2)
         rels.append(["conflict", ["t", a], ["t", b], rng.choice(["U", "L", "R"])])
-    if rng.random() < opts.get("p_mconflict", 0.3) and len(methods) >= 2:
-        a, b = rng.sample(range(len(methods)), 2)
-        rels.append(["conflict", ["m", a], ["m", b], rng.choice(["U", "L", "R"]) if opts.get("mprio") else "U"])
+    for _ in range(opts.get("n_mconflict", 1)):
+        if rng.random() < opts.get("p_mconflict", 0.3) and len(methods) >= 2:
+            a, b = rng.sample(range(len(methods)), 2)
+            rels.append(["conflict", ["m", a], ["m", b], rng.choice(["U", "L", "R"]) if opts.get("mprio") else "U"])
     if rng.random() < opts.get("p_tm_conflict", 0.0) and methods:
         rels.append(["conflict", ["t", rng.randrange(ntr)], ["m", rng.randrange(len(methods))], rng.choice(["U", "L", "R"])])
     if rng.random() < opts.get("p_before", 0.3) and ntr >= 2:
